@@ -2,6 +2,11 @@
 theorems, harness ops (correspondence + monitors) with their case counts per tier."""
 
 PROPS = {
+    "C01": dict(
+        module="JsightVerif.Props.C01",
+        ops=[dict(op="proj", quick=20000, thorough=1000000), dict(op="scan", quick=20000, thorough=1000000)],
+        assumptions=["Go runtime stack/memory limits are outside the model; worker processes observe them"],
+    ),
     "C12": dict(
         module="JsightVerif.Props.C12",
         ops=[dict(op="scan", quick=40000, thorough=2000000)],
